@@ -224,13 +224,15 @@ class _LabelMap:
     """label -> node map with linear search, for SinkParser._anonymousNodes (a real dict would hash, i.e. realise, a symbolic label)"""
 
     def __init__(self):
-        self.items = []
+        self.items_ = []
 
     def get(self, k, default=None):
-        for a, b in self.items:
+        # the latest entry for a key wins (re-assignment)
+        r = default
+        for a, b in self.items_:
             if a == k:
-                return b
-        return default
+                r = b
+        return r
 
     def __getitem__(self, k):
         r = self.get(k)
@@ -239,10 +241,17 @@ class _LabelMap:
         return r
 
     def __setitem__(self, k, v):
-        self.items.append((k, v))
+        self.items_.append((k, v))
 
     def __contains__(self, k):
         return self.get(k) is not None
+
+    def items(self):
+        # later entries for the same key win, as in a dict
+        out = []
+        for a, b in self.items_:
+            out = [(x, y) for x, y in out if not (x == a)] + [(a, b)]
+        return out
 
 
 def k_doc_labels(desc, F, l1, l2):
@@ -286,6 +295,41 @@ def k_doc_labels(desc, F, l1, l2):
         return "the document's two blank node occurrences give %d blank node positions" % len(nodes)
     if (nodes[0] == nodes[1]) != (l1 == l2):
         return "two occurrences of blank node labels in one TriG document: same label <-> same node does not hold (%s)" % shape
+    return None
+
+
+def k_doc_prefix(desc, F, c1, c2):
+    """a Turtle document that declares a prefix, uses it, declares a prefix again (same or other name, by the solver's choice; @prefix or
+    SPARQL-style PREFIX by shape) for another namespace and uses that: each prefixed name expands with the declaration in force where
+    it stands"""
+    from rdflib import Graph, URIRef
+    from rdflib.plugins.parsers.notation3 import RDFSink, SinkParser
+    p1, p2 = "p" + chr(c1), "p" + chr(c2)
+    g = Graph()
+    p = SinkParser(RDFSink(g), baseURI="http://base.invalid/", turtle=True)
+    m = _LabelMap()
+    for k, v in p._bindings.items():
+        m[k] = v
+    p._bindings = m
+    second = {"at-prefix": "@prefix %s: <urn:b/> .\n", "sparql-prefix": "PREFIX %s: <urn:b/>\n", "sparql-prefix-lower": "prefix %s: <urn:b/>\n"}[desc["second"]]
+    doc = ("@prefix %s: <urn:a/> .\n%s:x <urn:p> <urn:o1> .\n" % (p1, p1)) + (second % p2) + ("%s:x <urn:p> <urn:o2> .\n" % p2)
+    if desc.get("third"):
+        # ... and the first name once more: it means the second namespace exactly when the two prefix names are the same
+        doc += "%s:x <urn:p> <urn:o3> .\n" % p1
+    p.startDoc()
+    p.feed(doc)
+    p.endDoc()
+    s1 = list(g.subjects(URIRef("urn:p"), URIRef("urn:o1")))
+    s2 = list(g.subjects(URIRef("urn:p"), URIRef("urn:o2")))
+    if s1 != [URIRef("urn:a/x")]:
+        return "the first prefixed name does not expand with the first declaration"
+    if s2 != [URIRef("urn:b/x")]:
+        return "a prefixed name after a second prefix declaration does not expand with the declaration in force (%s)" % desc["second"]
+    if desc.get("third"):
+        s3 = list(g.subjects(URIRef("urn:p"), URIRef("urn:o3")))
+        want = URIRef("urn:b/x") if c1 == c2 else URIRef("urn:a/x")
+        if s3 != [want]:
+            return "a prefixed name used again after a re-declaration does not expand with the declaration in force (%s)" % desc["second"]
     return None
 
 
@@ -590,7 +634,7 @@ def k_iri_join(desc, F, s1, s2, f, name):
     return None
 
 
-BODIES = {"k-doc-labels": k_doc_labels, "k-sparql-string": k_sparql_string, "k-iri-join": k_iri_join, "k-rdfxml-lang": k_rdfxml_lang, "k-ttl-roundtrip-long": k_ttl_roundtrip_long, "k-plain-num": k_plain_num, "k-nt-writer": k_nt_writer, "k-nt-quoteliteral": k_nt_quoteliteral, "k-ttl-roundtrip": k_ttl_roundtrip,
+BODIES = {"k-doc-prefix": k_doc_prefix, "k-doc-labels": k_doc_labels, "k-sparql-string": k_sparql_string, "k-iri-join": k_iri_join, "k-rdfxml-lang": k_rdfxml_lang, "k-ttl-roundtrip-long": k_ttl_roundtrip_long, "k-plain-num": k_plain_num, "k-nt-writer": k_nt_writer, "k-nt-quoteliteral": k_nt_quoteliteral, "k-ttl-roundtrip": k_ttl_roundtrip,
           "k-ttl-reader": k_ttl_reader, "k-nt-reader": k_nt_reader, "k-xml-text": k_xml_text}
 
 ESCAPES = ["", "\\n", "\\t", "\\\"", "\\'", "\\\\", "\\r", "\\b", "\\f", "\\u0041", "\\u00e9", "\\U0001F600", "\\u005C", "\\u0022",
